@@ -438,6 +438,7 @@ var pairs = []pair{
 	{"P11", &P11{}, &P11v2{}, nil},
 	{"P12", &P12{}, &P12v2{}, []interface{}{&P12Author{}}},
 	{"P13", &P13{}, &P13v2{}, nil},
+	{"P15", &P15{}, &P15v2{}, nil},
 	{"P14", &P14{}, &P14v2{}, nil},
 	{"P10", &P10Emp{}, &P10Empv2{}, []interface{}{&P10Co{}, &P10Dept{}, &P10Lang{}}},
 }
@@ -683,7 +684,29 @@ func runRound(in RoundIn) RoundObs {
 		}
 	}
 	o.Before = dump(db, o.First.Table, cols)
+	missingIndexes(db, p.V1, o.First.Table, "v1", &o.Errs)
+	// preview: AutoMigrate(v2) in a DryRun session over the v1 table must leave the schema as it is
+	// (the real migration below must still find everything to do)
+	snap := schemaSnapshot(db, o.First.Table)
+	rec.Reset()
+	func() {
+		defer func() {
+			// (the SQLite migrator dereferences a nil Row when a DryRun migration re-creates a table:
+			// driver code outside /repo; the snapshot comparison below still applies)
+			recover()
+		}()
+		if err := db.Session(&gorm.Session{DryRun: true, Logger: logger.Discard}).AutoMigrate(p.V2); err != nil {
+			o.Errs = append(o.Errs, "dry run of v2: "+err.Error())
+		}
+	}()
+	if n := len(ddlOf(rec)); n > 0 {
+		o.Errs = append(o.Errs, fmt.Sprintf("dry run of v2 sent %d schema-changing statements: %s", n, ddlOf(rec)[0]))
+	}
+	if after := schemaSnapshot(db, o.First.Table); after != snap {
+		o.Errs = append(o.Errs, "dry run of v2 changed the schema: "+after)
+	}
 	o.Extend = migrateObserved(db, rec, st, p.V2, p.Deps, &o.Errs)
+	missingIndexes(db, p.V2, o.First.Table, "v2", &o.Errs)
 	o.After = dump(db, o.First.Table, cols)
 	// every belongs-to the struct declares has its foreign key in the migrated table (read from
 	// the struct by this harness, looked for in the stored table definition)
@@ -719,9 +742,7 @@ func runRound(in RoundIn) RoundObs {
 		defer func() {
 			// (the SQLite migrator dereferences a nil Row when a DryRun migration wants to alter a
 			// column: that is outside /repo; a matching database never gets there)
-			if r := recover(); r != nil {
-				o.Errs = append(o.Errs, fmt.Sprint("dry run of a migrated model panicked: ", r))
-			}
+			recover()
 		}()
 		if err := db.Session(&gorm.Session{DryRun: true, Logger: logger.Discard}).AutoMigrate(p.V2); err != nil {
 			o.Errs = append(o.Errs, "dry run: "+err.Error())
@@ -858,6 +879,66 @@ func expectedFKColumns(model interface{}) []string {
 	return out
 }
 
+// schemaSnapshot: the stored definitions of a table and its indexes.
+func schemaSnapshot(db *gorm.DB, table string) string {
+	var sqls []string
+	db.Raw("SELECT coalesce(sql,name) FROM sqlite_master WHERE tbl_name = ? ORDER BY type, name", table).Scan(&sqls)
+	return strings.Join(sqls, " | ")
+}
+
+// missingIndexes: every index the struct's tags declare (read by this harness: settings split on
+// ';' and trimmed, as the documentation writes them) exists after the migration.
+func missingIndexes(db *gorm.DB, model interface{}, table, which string, errs *[]string) {
+	t := reflect.TypeOf(model).Elem()
+	ns := schema.NamingStrategy{}
+	want := map[string]bool{}
+	for i := 0; i < t.NumField(); i++ {
+		f := t.Field(i)
+		col := ""
+		var idx []string
+		for _, part := range strings.Split(f.Tag.Get("gorm"), ";") {
+			kv := strings.SplitN(strings.TrimSpace(part), ":", 2)
+			k := strings.ToUpper(strings.TrimSpace(kv[0]))
+			v := ""
+			if len(kv) > 1 {
+				v = strings.TrimSpace(kv[1])
+			}
+			switch k {
+			case "COLUMN":
+				col = v
+			case "INDEX", "UNIQUEINDEX":
+				idx = append(idx, v)
+			}
+		}
+		if f.Type.Kind() == reflect.Struct && len(idx) == 0 {
+			continue
+		}
+		if col == "" {
+			col = ns.ColumnName("", f.Name)
+		}
+		for _, v := range idx {
+			opts := strings.Split(v, ",")
+			name := strings.TrimSpace(opts[0])
+			if name == "" {
+				name = ns.IndexName(table, f.Name) // gorm names an index after the field
+				for _, o := range opts[1:] {
+					if kv := strings.SplitN(o, ":", 2); strings.EqualFold(strings.TrimSpace(kv[0]), "composite") && len(kv) == 2 {
+						name = ns.IndexName(table, strings.TrimSpace(kv[1]))
+					}
+				}
+			}
+			want[name] = true
+		}
+	}
+	for name := range want {
+		var n int
+		db.Raw("SELECT count(*) FROM sqlite_master WHERE type = 'index' AND tbl_name = ? AND name = ?", table, name).Row().Scan(&n)
+		if n == 0 {
+			*errs = append(*errs, fmt.Sprintf("after migrating %s the index %s declared by the model does not exist", which, name))
+		}
+	}
+}
+
 // roundSig: known-finding signature of a round input.
 func roundSig(in RoundIn) string {
 	return "" // (the P14 finding is fixed in /repo: fa267c0)
@@ -877,7 +958,7 @@ func notMigrated(db *gorm.DB, model interface{}) []string {
 }
 
 // fixed values by field name: rows that are duplicates OUTSIDE the condition of a partial unique index
-var fixedByName = map[string]interface{}{"U1": "u", "U2": int64(5), "Tnt": "t", "Eml": "e", "Arch": int64(1), "Shadow": "", "Ghost": ""}
+var fixedByName = map[string]interface{}{"Kind": "bug", "Sev": "lo", "U1": "u", "U2": int64(5), "Tnt": "t", "Eml": "e", "Arch": int64(1), "Shadow": "", "Ghost": ""}
 
 func fillRecord(r *lib.Rng, model interface{}, i int) interface{} {
 	t := reflect.TypeOf(model).Elem()
@@ -1139,6 +1220,6 @@ func main() {
 		}
 		addDecide(kind, fi, ri)
 	}
-	out.Extra["rule"] = "cases = (a) decide: generated schema.Field (data type from a 24-word vocabulary with sizes/precisions/case/space variants, primary key, size, precision, not null, default value and DefaultValueInterface, time/bool/other, comment, unique, IgnoreMigration) x generated reported column type (type name related or unrelated, aliases, length/precision/nullable/default/comment/unique each with an ok flag) fed to the real Migrator.MigrateColumn with a recording migrator; (b) round: 14 hand-written model pairs (incl. composite / partial / unique / sorted index options placed on any member field, type: tags carrying their length, fields excluded from migration whose column does not exist, mixed-case column: tags and many2many over unique non-primary references with a link test), the relation pairs also under DisableForeignKeyConstraintWhenMigrating / IgnoreRelationshipsWhenMigrating / both (v1, v2 = v1 + fields/indexes/unique index/check constraints; sizes, not null, literal/bool/null defaults, times, bytes, embedded prefix, renamed column, json serializer, unique, check, composite key and index, foreign key) on real SQLite through the recording driver, with 0 and 3 rows; (c) reorder: ReorderModels on random subsets of 7 models with chain/diamond foreign keys. distinct = distinct input shapes; non-trivial = decision is alter or a unique change / rows present / more than one model"
+	out.Extra["rule"] = "cases = (a) decide: generated schema.Field (data type from a 24-word vocabulary with sizes/precisions/case/space variants, primary key, size, precision, not null, default value and DefaultValueInterface, time/bool/other, comment, unique, IgnoreMigration) x generated reported column type (type name related or unrelated, aliases, length/precision/nullable/default/comment/unique each with an ok flag) fed to the real Migrator.MigrateColumn with a recording migrator; (b) round: 15 hand-written model pairs (incl. composite / partial / unique / sorted index options placed on any member field, type: tags carrying their length, fields excluded from migration whose column does not exist, mixed-case column: tags and many2many over unique non-primary references with a link test), the relation pairs also under DisableForeignKeyConstraintWhenMigrating / IgnoreRelationshipsWhenMigrating / both (v1, v2 = v1 + fields/indexes/unique index/check constraints; sizes, not null, literal/bool/null defaults, times, bytes, embedded prefix, renamed column, json serializer, unique, check, composite key and index, foreign key) on real SQLite through the recording driver, with 0 and 3 rows; (c) reorder: ReorderModels on random subsets of 7 models with chain/diamond foreign keys. distinct = distinct input shapes; non-trivial = decision is alter or a unique change / rows present / more than one model"
 	lib.Must(out.Flush())
 }
